@@ -39,11 +39,12 @@ VARIABLES vstep,     \* [Conn -> {"Waiting","StartResp"}]      verify.step
           val,       \* 0 | 1   value of the writable, evented characteristic
           subs,      \* SUBSET Conn   connections subscribed to it
           cb,        \* 0..2   application callbacks fired (saturating)
+          sok,       \* SUBSET Conn  ghost: the latest pair-verify message on the connection was an ACCEPTED start
           cache,     \* [Conn -> name]  the first stored name a finish on this connection claimed: hidden state that only an
                      \* implementation WITHOUT the guard key_looked_up_per_finish has (an entity cached per connection)
           last       \* the last step: [c, a, p, r, ev]  (r = reply class, ev = connections that got an EVENT)
 
-vars == <<vstep, exch, mode, verified, open, legitPaired, extra, val, subs, cb, cache, last>>
+vars == <<vstep, exch, mode, verified, open, legitPaired, extra, val, subs, cb, cache, sok, last>>
 
 Guard(g) == g \notin Weak
 ProtectedOps == {"GetAcc", "GetChar", "PutVal", "PutSub", "Resource", "AddPair", "RemPair"}
@@ -51,7 +52,7 @@ ProtectedOps == {"GetAcc", "GetChar", "PutVal", "PutSub", "Resource", "AddPair",
 Init == /\ vstep = [c \in Conn |-> "Waiting"] /\ exch = [c \in Conn |-> 0]
         /\ mode = [c \in Conn |-> "plain"] /\ verified = [c \in Conn |-> FALSE]
         /\ open = [c \in Conn |-> TRUE]
-        /\ legitPaired = TRUE /\ extra = FALSE /\ val = 0 /\ subs = {} /\ cb = 0 /\ cache = [c \in Conn |-> "none"]
+        /\ legitPaired = TRUE /\ extra = FALSE /\ val = 0 /\ subs = {} /\ cb = 0 /\ cache = [c \in Conn |-> "none"] /\ sok = {}
         /\ last = [c |-> "none", a |-> "none", p |-> "none", f |-> "none", r |-> "none", ev |-> {}]
 
 Reply(c, a, p, f, r, ev) == last' = [c |-> c, a |-> a, p |-> p, f |-> f, r |-> r, ev |-> ev]
@@ -67,11 +68,14 @@ VStart(c, len) ==
      THEN /\ vstep' = [vstep EXCEPT ![c] = "Waiting"]            \* :61 reset, error
           /\ Reply(c, "VStart", len, "plain", "HttpError", {}) /\ UNCHANGED exch
      ELSE IF len # "ok"
-     THEN /\ vstep' = [vstep EXCEPT ![c] = "StartResp"]          \* :90 step advanced, :94 length rejected
+     \* a start with a key of the wrong length is rejected and leaves the machine waiting (guard
+     \* rejected_start_keeps_waiting); without the guard the step is advanced before the length is looked at
+     THEN /\ vstep' = [vstep EXCEPT ![c] = IF Guard("rejected_start_keeps_waiting") THEN "Waiting" ELSE "StartResp"]
           /\ Reply(c, "VStart", len, "plain", "HttpError", {}) /\ UNCHANGED exch
      ELSE /\ vstep' = [vstep EXCEPT ![c] = "StartResp"]
           /\ exch' = [exch EXCEPT ![c] = @ + 1]
           /\ Reply(c, "VStart", len, "plain", "V2", {})
+  /\ sok' = IF vstep[c] = "Waiting" /\ len = "ok" THEN sok \cup {c} ELSE sok \ {c}
   /\ UNCHANGED <<mode, verified, open, legitPaired, extra, val, subs, cb, cache>>
 
 \* ---- pair-verify finish: :66-72 (defer reset), 145-199, and the endpoint's switch pair-verify.go:62-75
@@ -122,6 +126,7 @@ VFinish(c, kind) ==
   /\ cache' = IF /\ vstep[c] = "StartResp" /\ kind \notin {"short", "badseal", "replayed", "badtlv"}
                  /\ cache[c] = "none" /\ Stored(NameOf(kind))
               THEN [cache EXCEPT ![c] = NameOf(kind)] ELSE cache
+  /\ sok' = sok \ {c}
   /\ UNCHANGED <<exch, open, legitPaired, extra, val, subs, cb>>
 
 \* ---- pair-setup noise a peer without the setup code can produce; its effect on the store is C02's business,
@@ -129,7 +134,7 @@ VFinish(c, kind) ==
 PSNoise(c, kind) ==
   /\ Plain(c) /\ kind \in Noise
   /\ Reply(c, "PSNoise", kind, "plain", "Any", {})
-  /\ UNCHANGED <<vstep, exch, mode, verified, open, legitPaired, extra, val, subs, cb, cache>>
+  /\ UNCHANGED <<vstep, exch, mode, verified, open, legitPaired, extra, val, subs, cb, cache, sok>>
 
 \* ---- the gating layer
 Passes(c) == IF Guard("authenticate_checks_verified") THEN mode[c] = "enc" ELSE TRUE
@@ -164,13 +169,13 @@ Req(c, op, form) ==
                /\ Effect(c, op) /\ UNCHANGED open
      ELSE /\ Reply(c, "Req", op, form, "Served", IF op = "PutVal" THEN Targets(c) ELSE {})
           /\ Effect(c, op) /\ UNCHANGED open
-  /\ UNCHANGED <<vstep, exch, mode, verified, cache>>
+  /\ UNCHANGED <<vstep, exch, mode, verified, cache, sok>>
 
 \* the application changes the value: every open subscribed connection gets an EVENT
 LocalSet ==
   /\ val' = 1 - val
   /\ Reply("app", "LocalSet", "none", "none", "none", Targets("app"))
-  /\ UNCHANGED <<vstep, exch, mode, verified, open, legitPaired, extra, subs, cb, cache>>
+  /\ UNCHANGED <<vstep, exch, mode, verified, open, legitPaired, extra, subs, cb, cache, sok>>
 
 \* hap/connection.go:111-118
 Close(c) ==
@@ -178,6 +183,7 @@ Close(c) ==
   /\ open' = [open EXCEPT ![c] = FALSE]
   /\ subs' = subs \ {c}
   /\ Reply(c, "Close", "none", "none", "none", {})
+  /\ sok' = sok \ {c}
   /\ UNCHANGED <<vstep, exch, mode, verified, legitPaired, extra, val, cb, cache>>
 
 Next == \/ \E c \in Conn :
@@ -194,6 +200,8 @@ Spec == Init /\ [][Next]_vars
 \* C03
 VerifiedRule == \A c \in Conn : mode[c] = "enc" => verified[c]
 ErrorRule == [][ last'.a = "VFinish" /\ last'.r = "V4ok" => verified'[last'.c] ]_vars
+\* a finish is accepted only when it answers an accepted start (nothing rejected or out of order in between)
+FinishAnswersStart == [][ last'.a = "VFinish" /\ last'.r = "V4ok" => last'.c \in sok ]_vars
 \* C01
 GateRule == [][ (last'.a = "Req" /\ last'.r \in {"Served", "RefusedButRun"}) => verified[last'.c] ]_vars
 RefusalChangesNothing ==
@@ -207,5 +215,5 @@ TypeOK == /\ vstep \in [Conn -> {"Waiting", "StartResp"}] /\ exch \in [Conn -> 0
           /\ mode \in [Conn -> {"plain", "enc"}] /\ verified \in [Conn -> BOOLEAN]
           /\ val \in {0, 1} /\ subs \subseteq Conn /\ cb \in 0..2
 
-View == <<vstep, exch, mode, verified, open, legitPaired, extra, val, subs, cb, cache>>
+View == <<vstep, exch, mode, verified, open, legitPaired, extra, val, subs, cb, cache, sok>>
 =======================================================================
